@@ -62,6 +62,18 @@ R2 = {
                  "second event shape per preset, multi-byte path kinds"),
     ("C20", 2): ("C20", "one report listing an outer-repository file before a nested-repository file, started from a workspace root that is no repository",
                  "C20 hook.state (file_not_recorded_in_the_repository_that_contains_it)", False, "multi-repository reports with a positive oracle"),
+    ("C10b", 1): ("C10", "a clone on its first notes sync (no local notes ref, remote has notes) that commits while the background notes fetch of git fetch is in flight",
+                  "C11 sched.linearizable (first_sync_fetch_vs_commit)", False, "scenario first_sync_fetch_vs_commit; helper threads of a process are scheduled as parties by the controller"),
+    ("C10b", 2): ("C10", "pull.rebase=merges / interactive in the configuration and a plain git pull over diverged history", "C02 abort.state / ledger.blame (pull family)", False,
+                  "pull family: rebase mode and autostash through configuration"),
+    ("C11b", 1): ("C11", "two linked worktrees: rebase stops on a conflict in one, a rebase completes in the other, then rebase --continue in the first",
+                  "C02 ledger.blame (worktree_rebases)", False, "family worktree_rebases (op add_worktree)"),
+    ("C11b", 2): ("C11", "a partial commit (INITIAL written) and another agent's checkpoint that lands after HEAD moved but before post_commit writes INITIAL",
+                  "C11 sched.linearizable (ckpt_after_head_moved)", False, "scenario ckpt_after_head_moved with a start constraint (hold) in the controller"),
+    ("C13b", 1): ("C13", "hooks mode: rebase -i squash / fixup where a file is touched only by the folded-in commit", "C13 pair.notes", False,
+                  "rebase_i variant: every commit of the branch works in a file of its own"),
+    ("C13b", 2): ("C13", "hooks mode: detached HEAD, backward reset --soft / --mixed over AI commits, re-commit", "C13 pair.notes", False,
+                  "reset_recommit variant: detached HEAD"),
 }
 DROPPED = {
     ("C01", 1): "same mechanism as round-1 C01-patch (ASCII-only whitespace test); caught by C01 at once",
